@@ -120,3 +120,26 @@ PROPS["C10"] = dict(
     trusted_base=COMMON_TRUSTED, assumptions=[], not_decided=[],
     level_text="x", level_note="x",
 )
+
+_POOLS = ["stdlib", "util_timeout", "util_retry", "util_url", "connectionpool", "poolmanager_urlopen"]
+_BOUNDARY = ["connection boundary (HTTPConnection.request/getresponse/close, _validate_conn, _prepare_proxy): assumed contracts",
+             "HTTPConnectionPool.is_same_host, PoolManager.connection_from_host, urllib.parse.urljoin, HTTPHeaderDict(...)/copy/_prepare_for_method_change, BaseHTTPResponse.get_redirect_location/drain_conn: assumed contracts (uninterpreted where content matters)",
+             "mappings (dict / HTTPHeaderDict) abstracted to membership/value arrays; the strip loop's effect on the copy is havocked (its content is checked by the bounded contract)"]
+
+PROPS["C05"] = dict(
+    contracts=_POOLS, bounded=["c05"], trusted_base=COMMON_TRUSTED, assumptions=_BOUNDARY,
+    not_decided=["the closed-loop hop count is carried by the induction step (each hop passes on the policy returned by Retry.increment, whose contract decrements redirect/total and raises MaxRetryError below zero); the summed bound is not restated as one formula"],
+    level_text="Deductive proof over the real PoolManager.urlopen (two keyword variants), HTTPConnectionPool.urlopen (recursion sites) and Retry.from_int/__init__/increment: a cross-host hop happens only when redirect was requested, "
+               "with the policy object freshly returned by Retry.increment (budget decremented, MaxRetryError when exhausted -> response returned iff raise_on_redirect is False), the effective policy is the request's or else the pool's default "
+               "(fixed defect D1), the pool itself is always called with redirect=False/assert_same_host=False, 303 turns into a body-less GET while 301/302/307/308 keep method and body, the hop target is urljoin(current, Location), "
+               "and every recursion of the pool-level urlopen carries redirect/timeout/release/... unchanged. Plus a bounded end-to-end contract over scripted redirect chains.",
+    level_note="Assumed: connection boundary, urljoin, HTTPHeaderDict operations (C16). The bounded part (scripted chains through the real PoolManager with an in-memory ConnectionCls) is labelled bounded.",
+)
+PROPS["C06"] = dict(
+    contracts=_POOLS, bounded=["c06"], trusted_base=COMMON_TRUSTED, assumptions=_BOUNDARY,
+    not_decided=["that the strip loop removes every spelling of a listed name from the copy is decided by the bounded contract only (the loop over an opaque mapping is havocked in the proof)"],
+    level_text="Deductive proof over the real PoolManager.urlopen and Retry: the origin comparison is made against the absolute redirect target (urljoin result), stripping is done on a fresh copy (the caller's mapping is in no "
+               "modifies-frame: frame obligation), the set of names to strip is the effective policy's and is carried unchanged (as the lower-cased image) through every Retry.increment, and the stripped mapping is what the next hop gets. "
+               "Bounded: the strip loop itself for all spellings/containers through the real code.",
+    level_note="Known finding D15 (forwarding proxy: redirect to the proxy's own host:port keeps credentials) is reported by the bounded contract as KNOWN-FINDING. Fixed: D16.",
+)
